@@ -1,6 +1,7 @@
 package main
 
 import (
+	"encoding/json"
 	"fmt"
 	"os"
 )
@@ -22,5 +23,22 @@ func cmdReplay(args []string) int {
 	}
 	os.Stdout.Write(b)
 	fmt.Println()
+	// a failing case of a bounded stand-in carries its input: run exactly that case again on the current tree
+	var rf struct {
+		Property string `json:"property"`
+		Checker  string `json:"checker"`
+		Failure  string `json:"failure"`
+	}
+	if json.Unmarshal(b, &rf) == nil && rf.Checker == "bounded:SetLinks" && rf.Failure != "" {
+		os.Setenv("VERIF_BOUNDED_ONLY", rf.Failure)
+		x := runBoundedGoTest(rf.Property, "thorough", rf.Checker, "boltz", "c05_setlinks_test.go", "^TestVerifBoundedSetLinks$", "replay of one case")
+		if len(x.Failures) > 0 {
+			for _, f := range x.Failures {
+				fmt.Println("REPRODUCED on the current tree:", f)
+			}
+			return 1
+		}
+		fmt.Printf("not reproduced on the current tree (%d case(s) run)\n", x.Cases)
+	}
 	return 0
 }
